@@ -372,4 +372,29 @@ theorem foldl_rel {rec : World α → Pair → π → Except Exc (World α × Op
         exact hrec acc q acc' r hq h
       · exact hrefl _
 
+/-- The same with an invariant of the loop state, for the partners actually in the loop. -/
+theorem foldl_rel_inv {rec : World α → Pair → π → Except Exc (World α × Option α)} {y : π}
+    (Inv : World α → Prop) (Rel : World α → World α → Prop)
+    (hrefl : ∀ a, Rel a a) (htrans : ∀ a b c, Rel a b → Rel b c → Rel a c)
+    (ps : List Pair)
+    (hrec : ∀ acc q acc' r, Inv acc → q ∈ ps → q ∉ acc.locked → rec acc q y = .ok (acc', r) →
+      Rel acc acc' ∧ Inv acc')
+    (acc : World α) (hacc : Inv acc) :
+    Rel acc (ps.foldl (visitPartner rec y) acc) ∧ Inv (ps.foldl (visitPartner rec y) acc) := by
+  induction ps generalizing acc with
+  | nil => exact ⟨hrefl _, hacc⟩
+  | cons q qs ih =>
+    simp only [List.foldl_cons]
+    have hstep : Rel acc (visitPartner rec y acc q) ∧ Inv (visitPartner rec y acc q) := by
+      unfold visitPartner
+      split
+      · exact ⟨hrefl _, hacc⟩
+      · rename_i hq
+        split
+        · rename_i acc' r h
+          exact hrec acc q acc' r hacc (by simp) hq h
+        · exact ⟨hrefl _, hacc⟩
+    have := ih (fun acc q' acc' r hi hm hq h => hrec acc q' acc' r hi (by simp [hm]) hq h) _ hstep.2
+    exact ⟨htrans _ _ _ hstep.1 this.1, this.2⟩
+
 end TraitsVerif.Model.Sync
